@@ -129,13 +129,16 @@ func VH_C17_fasta_roundtrip() {
 var _ gts.Sequence = Fasta{}
 
 //verif:harness prop=C17 quick=2 thorough=4 merge=concrete
-//verif:bounds GenBank->FASTA conversion: record with 0..3 symbolic version/definition bytes (no line breaks), residues of length {5,70} (quick) + {0,71} (thorough) symbolic over printable ASCII minus '>', whole record or a slice [1,4)
+//verif:bounds GenBank->FASTA conversion: record with 1..2 symbolic version bytes and 0..2 definition bytes (any byte but CR; line breaks in the definition become blanks), residues of length {5,70} (quick) + {0,71} (thorough) symbolic over printable ASCII minus '>', whole record or a slice [1,4)
 func VH_C17_genbank_to_fasta() {
 	n := []int{5, 70, 0, 71}[vShard(2+2*vTier())]
 	ver := vBytesIn("ver", 1+vChoice("vn", 2), 33, 126) // version: a non-blank word
 	def := vBytes("def", vChoice("dn", 3))
-	for _, c := range def {
-		vAssume(vAnd(c != '\n', c != '\r'))
+	// a DEFINITION may run over several lines; on the one-line FASTA description the breaks become blanks
+	flat := make([]byte, len(def))
+	for i, c := range def {
+		vAssume(c != '\r')
+		flat[i] = byte(vIte(c == '\n', ' ', int(c)))
 	}
 	data := vBytesIn("r", n, 33, 126)
 	for _, c := range data {
@@ -145,11 +148,11 @@ func VH_C17_genbank_to_fasta() {
 		Version: string(ver), Definition: string(def)}, Origin: NewOrigin(data)}
 	var seq gts.Sequence = gb
 	want := data
-	wantDesc := string(ver) + " " + string(def)
+	wantDesc := string(ver) + " " + string(flat)
 	if n >= 5 && vChoice("slice", 2) == 1 {
 		seq = gts.Slice(gb, 1, 4)
 		want = data[1:4]
-		wantDesc = string(ver) + ":2-4 " + string(def)
+		wantDesc = string(ver) + ":2-4 " + string(flat)
 	}
 	buf := &bytes.Buffer{}
 	_, err := NewWriter(buf, FastaFile).WriteSeq(seq)
